@@ -301,7 +301,8 @@ VERIF_HARNESS(h_next_arg)
 //@harness h_tc_{D}_{S} for D in u8,u16,u32,u64,i8,i16,i32,i64 for S in u8,u16,u32,u64,i8,i16,i32,i64 tier=quick
 //@harness h_fi_{U}_{N}_{V} for U in u8,u16,u32 for N in 1,3,9 for V in u8,u16,u32,u64 tier=quick
 //@harness h_fi_u8_{N}_{V} for N in 2,17,200,255 for V in u8,u16,u32,u64 tier=thorough
-//@harness h_fi_u16_{N}_{V} for N in 256,1000,65535 for V in u8,u16,u32,u64 tier=thorough
+//@harness h_fi_u16_{N}_{V} for N in 256,1000 for V in u8,u16,u32,u64 tier=quick
+//@harness h_fi_u16_65535_{V} for V in u8,u16,u32,u64 tier=thorough
 //@harness h_fi_u32_{N}_{V} for N in 65536,4294967295 for V in u8,u16,u32,u64 tier=thorough
 //@harness h_ceil_div_{T} for T in u32,u64 tier=quick
 //@harness h_ceil_div_signed_{T} for T in i32,i64 tier=quick
